@@ -270,7 +270,7 @@ def convertSlice : P String := do
   let t ← node
   let A0 ← atomsP
   -- display, visibility, unlikely and maybe are computed by the model from the attributes in the tree
-  let A := deriveAtomsAll t A0
+  let A := deriveAtomsAllFast t A0
   let evs := convert { skipUnlikely := sk } A [] false t
   let td := textData t
   let nd := fun i => match td.find? (fun p => p.1 == i) with | some p => p.2 | none => ""
@@ -416,7 +416,7 @@ def stripSlice : P String := do
 def outputnodesSlice : P String := do
   let t ← node
   let A1 ← atomsP
-  let A := deriveAtoms t A1
+  let A := deriveAtomsFast t A1
   pure s!"{",".intercalate ((outputTextIds A t).map toString)} | {",".intercalate (outputTags A t)}"
 
 /-- `absurl tree n (value abs absSet)*` → attributes of every element after MakeAllLinksAbsolute;
@@ -580,7 +580,7 @@ Go code would dereference nil -/
 def textrenderSlice : P String := do
   let t ← node
   let A1 ← atomsP
-  let A := deriveAtoms t A1
+  let A := deriveAtomsFast t A1
   let n ← nat
   let ids ← many n nat
   let m ← nat
@@ -679,7 +679,7 @@ makes of the element: kind, the image element and the caption, serialised -/
 def imageextractSlice : P String := do
   let t ← node
   let A1 ← atomsP
-  let A := deriveAtoms t A1
+  let A := deriveAtomsFast t A1
   let m ← nat
   let tbl ← many m (do let v ← str; let a ← bool; let b ← bool; let c ← bool; pure (v, a, b, c))
   let look := fun (v : String) => tbl.find? (fun e => e.1 == v)
